@@ -58,6 +58,14 @@ def sim_calls(EoN, G, n):
         calls["percolation_based_discrete_SIR" + f] = (EoN.percolation_based_discrete_SIR, (G, 0.6), dict(initial_infecteds=I0, initial_recovereds=R0, return_full_data=full))
         calls["Gillespie_simple_contagion(dict)" + f] = (EoN.Gillespie_simple_contagion, (G, H, J, ICd, stats), dict(tmax=3, return_full_data=full))
         calls["Gillespie_simple_contagion(defaultdict)" + f] = (EoN.Gillespie_simple_contagion, (G, H, J, ICdd, stats), dict(tmax=3, return_full_data=full))
+        # status labels of mixed type (not sortable against each other): 'S', 'I' and the integer 0
+        Hm = nx.DiGraph(); Hm.add_edge("I", 0, rate=0.7); Hm.add_edge(0, "S", rate=0.3)
+        Jm = nx.DiGraph(); Jm.add_edge(("I", "S"), ("I", "I"), rate=0.8)
+        calls["Gillespie_simple_contagion(mixed labels)" + f] = (EoN.Gillespie_simple_contagion, (G, Hm, Jm, dict(ICd), ["S", "I", 0]), dict(tmax=3, return_full_data=full))
+        # initial sets passed as sets / tuples (the caller's containers)
+        calls["Gillespie_SIR(sets)" + f] = (EoN.Gillespie_SIR, (G, 0.8, 0.7), dict(initial_infecteds=set(I0), initial_recovereds=set(R0), return_full_data=full))
+        calls["fast_SIR(sets)" + f] = (EoN.fast_SIR, (G, 0.8, 0.7), dict(initial_infecteds=set(I0), initial_recovereds=set(R0), return_full_data=full))
+        calls["discrete_SIR(sets)" + f] = (EoN.discrete_SIR, (G,), dict(args=(0.6,), initial_infecteds=set(I0), initial_recovereds=set(R0), return_full_data=full))
         calls["Gillespie_complex_contagion" + f] = (EoN.Gillespie_complex_contagion, (G, rate_function, lambda G_, node, status, parameters: "I" if status[node] == "S" else "R",
                                                     lambda G_, node, status, parameters: list(G_.neighbors(node)), ICd, stats), dict(tmax=30, parameters=params, return_full_data=full))
     calls["estimate_SIR_prob_size"] = (EoN.estimate_SIR_prob_size, (G, 0.6), {})
@@ -206,7 +214,7 @@ def run_spec(spec, props=("C19",)):
         I0 = list(spec["I0"]); R0 = list(spec["R0"])
         for name in cat.all_names():
             inf = cat.info(name)
-            for icname, ic in (("sets", ("sets", I0, R0 if inf["hasR0"] else [])), ("rho", ("rho", 0.2))):
+            for icname, ic in (("sets", ("sets", I0, R0 if inf["hasR0"] else [])), ("sets(set)", ("sets", I0, R0 if inf["hasR0"] else [])), ("rho", ("rho", 0.2))):
                 if not cat.supports(name, ic):
                     continue
                 f = getattr(EoN, name)
@@ -224,6 +232,10 @@ def run_spec(spec, props=("C19",)):
                         kw["initial_infecteds"] = I0
                         if ic[2]:
                             kw["initial_recovereds"] = R0
+                        if icname == "sets(set)":
+                            kw["initial_infecteds"] = set(I0)
+                            if ic[2]:
+                                kw["initial_recovereds"] = set(R0)
                     if inf["node"]:
                         kw["nodelist"] = list(G.nodes())
                         kw["transmission_weight"] = "w"; kw["recovery_weight"] = "rw"
